@@ -139,7 +139,7 @@ pub fn display_inner(ast: &DeriveInput) -> syn::Result<TokenStream> {
                         .collect();
                     quote! {
                         #[allow(unused_variables)]
-                        #name::#ident #params => ::core::fmt::Display::fmt(&format!(#output, #args), #f)
+                        #name::#ident #params => ::core::fmt::Display::fmt(&format_args!(#output, #args), #f)
                     }
                 }
             }
